@@ -64,6 +64,7 @@ EXPECTED = {
     "bad_len": (ValueError, EnumEncodingError, EnumMemberNotFoundError),
     "bad_dtype": (ValueError,),
     "bad_enum": (EnumEncodingError, EnumMemberNotFoundError, ValueError),
+    "bad_enum_index": (EnumEncodingError, EnumMemberNotFoundError, ValueError),
     # F15: the interpreter's stack is exhausted somewhere below the request
     "stack_exhausted": (RecursionError,),
     "enospc": (OSError,),
@@ -183,6 +184,7 @@ def applicable(world: World, kind_rec) -> list:
             out.append({"kind": "bad_dtype"})
         if spec["type"] == "enum":
             out.append({"kind": "bad_enum"})
+            out.append({"kind": "bad_enum_index"})
         return out
     raise ValueError(kind_rec)
 
